@@ -144,3 +144,129 @@ UNITS += [
          assumptions=["QuadraticSolver::solve_general not under contract (sqrt)"],
          note="GeneralQuadric::calc_intersections: the quadratic handed to the solver is the surface function along the ray, f(pos + t dir) == a t^2 + b t + c"),
 ]
+
+
+# ---------------------------------------------------------------------------
+# QuadraticSolver: every reported distance is positive (or "no intersection")
+# ---------------------------------------------------------------------------
+QS = "src/orange/surf/detail/QuadraticSolver.hh"
+QS_MODEL = """
+#include <math.h>
+typedef struct { real_type v[2]; } Intersections;                 /* Array<real_type, 2> */
+typedef struct { real_type a_inv_, hba_; } QuadraticSolver;
+enum { SS_off = 0, SS_on = 1 };                                   /* SurfaceState (bound) */
+#define NO_INT __builtin_inf()                                    /* no_intersection() */
+double __CPROVER_uninterpreted_sqrt(double);
+/* std::sqrt of a positive finite value: some non-negative, non-NaN value (its accuracy is NOT decided) */
+static real_type UF_sqrt(real_type x) { __CPROVER_assert(x > 0, "sqrt argument positive"); real_type r = __CPROVER_uninterpreted_sqrt(x); __CPROVER_assume(r >= 0); return r; }
+real_type g_min_a;    /* QuadraticSolver::min_a(): a positive tolerance (any value) */
+#define FIN(x) (!__CPROVER_isnand(x) && !__CPROVER_isinfd(x))
+/* magnitudes of geometry coefficients: zero, or within [1e-100, 1e100] (excludes overflow / underflow of the quotient, which no real geometry reaches) */
+#define PHYS(x) ((x) == 0 || (fabs(x) >= 1e-100 && fabs(x) <= 1e100))
+/* the property's clause: a reported intersection distance is positive, or it is the no-intersection value */
+#define DIST_OK(x) ((x) > 0)
+"""
+QS_RULES = [
+    Rule(r"Intersections result;", "Intersections result = {{0, 0}};", (0, 1), note="value-initialised array"),
+    Rule(r"Intersections result\{-2 \* hba_, no_intersection\(\)\};", "Intersections result = {{-2 * hba_, no_intersection()}};", (0, 1), note="aggregate initialisation"),
+    Rule(r"result = \{no_intersection\(\), no_intersection\(\)\};", "result.v[0] = no_intersection(); result.v[1] = no_intersection();", (0, 2), note="aggregate assignment"),
+    Rule(r"return \{no_intersection\(\), no_intersection\(\)\};", "{ Intersections r_ = {{no_intersection(), no_intersection()}}; return r_; }", (0, 1), note="aggregate return"),
+    Rule(r"result\[(\d)\]", r"result.v[\1]", "*", note="Array::operator[]"),
+    Rule(r"no_intersection\(\)", "NO_INT", "*", note="no_intersection() == +infinity"),
+    Rule(r"ipow<2>\(([^()]*)\)", r"((\1) * (\1))", "*", note="ipow<2>(x) == x*x"),
+    Rule(r"std::sqrt\(", "UF_sqrt(", "*", note="sqrt -> uninterpreted non-negative value"),
+    Rule(r"std::fabs\(", "fabs(", "*", note="std::fabs -> C fabs"),
+    Rule(r"QuadraticSolver::min_a\(\)", "g_min_a", "*", note="tolerance constant -> any positive value"),
+    Rule(r"(?<![\w.>])(a_inv_|hba_)\b", r"self->\1", "*", note="data members"),
+]
+
+
+def qs_piece(ctx, which):
+    if which == "call_c":
+        return ctx.func(QS, r"^QuadraticSolver::operator\(\)\(real_type c\) const -> Intersections", QS_RULES, name="QuadraticSolver::operator()(c)")
+    if which == "call_on":
+        return ctx.func(QS, r"CELER_FUNCTION auto QuadraticSolver::operator\(\)\(\) const -> Intersections", QS_RULES, name="QuadraticSolver::operator()()")
+    if which == "along":
+        return ctx.func(QS, r"^QuadraticSolver::solve_along_surface\(real_type half_b,", QS_RULES, name="QuadraticSolver::solve_along_surface")
+    raise KeyError(which)
+
+
+QS_SIGS = {
+    "call_c": ("Intersections QS_call_c(QuadraticSolver const* self, real_type c)", "self != 0 && FIN(self->a_inv_) && FIN(self->hba_) && FIN(c)", "QS_call_c(&q, c);"),
+    "call_on": ("Intersections QS_call_on(QuadraticSolver const* self)", "self != 0 && FIN(self->hba_)", "QS_call_on(&q);"),
+    "along": ("Intersections QS_solve_along_surface(real_type half_b, real_type c)", "FIN(half_b) && FIN(c) && g_min_a > 0 && PHYS(half_b) && PHYS(c)", "QS_solve_along_surface(hb, c);"),
+}
+
+
+def build_qs(which):
+    def build(ctx):
+        pc = qs_piece(ctx, which)
+        sig, req, call = QS_SIGS[which]
+        return (HDR + QS_MODEL + sig + "\n__CPROVER_requires(" + req + ")\n__CPROVER_assigns()\n"
+                "/* each reported distance is positive (possibly the no-intersection value +inf), never zero, negative or NaN */\n"
+                "__CPROVER_ensures(DIST_OK(__CPROVER_return_value.v[0]) && DIST_OK(__CPROVER_return_value.v[1]))\n"
+                "{" + pc.body + "}\nvoid h_qs(void)\n{\n    QuadraticSolver q; real_type c, hb;\n    " + call + "\n    VERIF_CANARY();\n}\n")
+    return build
+
+
+QSG_RULES = QS_RULES + [
+    Rule(r"QuadraticSolver solve\(a, half_b\);", "QuadraticSolver solve; QS_ctor(&solve, a, half_b);", 1, note="constructor call (body extracted)"),
+    Rule(r"on_surface == SurfaceState::on \? solve\(\) : solve\(c\)", "on_surface == SS_on ? QS_call_on(&solve) : QS_call_c(&solve, c)", 1, note="functor calls -> contracts (enforced in c12_qs_call_on / c12_qs_call_c)"),
+    Rule(r"SurfaceState::(\w+)", r"SS_\1", "*", note="enum class value (bound)"),
+    Rule(r"QuadraticSolver::solve_along_surface\(", "QS_solve_along_surface(", 1, note="static member -> contract (enforced in c12_qs_along_surface)"),
+]
+
+
+def build_qs_general(ctx):
+    import re
+    from vkit.extract import init_list, ExtractionDrift
+    pc = ctx.func(QS, r"^QuadraticSolver::solve_general\(real_type a,", QSG_RULES, name="QuadraticSolver::solve_general")
+    ct = ctx.span(QS, r"CELER_FUNCTION QuadraticSolver::QuadraticSolver\(real_type a, real_type half_b\)", r"\n\{\n.*?\n\}", [], name="QuadraticSolver::QuadraticSolver")
+    k = ct.body.index("\n{\n")
+    inits = init_list(ct.body[:k])
+    if [m for m, _ in inits] != ["a_inv_", "hba_"]:
+        raise ExtractionDrift("QuadraticSolver constructor initialiser list changed")
+    ctor = "\n".join("    self->%s = %s;" % (m, re.sub(r"(?<![\w.>])(a_inv_|hba_)\b", r"self->\1", e)) for m, e in inits)
+    ctor_body = ct.body[k + 3 : -1].replace("std::fabs(", "fabs(").replace("QuadraticSolver::min_a()", "g_min_a")
+    stubs = ""
+    for w in ("call_c", "call_on", "along"):
+        sig, req, _ = QS_SIGS[w]
+        stubs += sig + "\n__CPROVER_requires(" + req + ")\n__CPROVER_assigns()\n__CPROVER_ensures(DIST_OK(__CPROVER_return_value.v[0]) && DIST_OK(__CPROVER_return_value.v[1]))\n;\n"
+    return (HDR + QS_MODEL + stubs + "static void QS_ctor(QuadraticSolver* self, real_type a, real_type half_b)\n{\n" + ctor + "\n" + ctor_body + "}\n" + """
+Intersections QS_solve_general(real_type a, real_type half_b, real_type c, int on_surface)
+__CPROVER_requires(FIN(a) && FIN(half_b) && FIN(c) && PHYS(a) && PHYS(half_b) && PHYS(c) && g_min_a >= 1e-100 && (on_surface == SS_off || on_surface == SS_on))
+__CPROVER_assigns()
+__CPROVER_ensures(DIST_OK(__CPROVER_return_value.v[0]) && DIST_OK(__CPROVER_return_value.v[1]))
+{""" + pc.body + """}
+void h_qsg(void)
+{
+    real_type a, hb, c; int s;
+    QS_solve_general(a, hb, c, s);
+    VERIF_CANARY();
+}
+""")
+
+
+def _qs_argv(inputs, fl):
+    runs = []
+    if "hb#bin" in inputs and "c#bin" in inputs and "along_surface" in (fl.get("obligation", "") + fl.get("description", "")):
+        runs.append(["quadratic_along", inputs["hb#bin"], inputs["c#bin"]])
+    runs.append(["quadratic_battery"])
+    return runs
+
+
+REPLAY_QS = {"src": "replay/c12.cc", "argv": _qs_argv}
+
+UNITS += [
+    Unit("c12_qs_call_c", build_qs("call_c"), "h_qs", enforce="QS_call_c", timeout=600, backend=["sat", "kissat", "cvc5"], must_have=[r"QS_call_c.postcondition", r"sqrt argument"], replay=REPLAY_QS,
+         assumptions=["std::sqrt returns some non-negative non-NaN value for a positive argument (accuracy not decided)"],
+         note="QuadraticSolver::operator()(c): both reported roots are > 0 or no_intersection, for every finite a_inv, b/2a, c and ANY sqrt value; sqrt is only taken of a positive discriminant"),
+    Unit("c12_qs_call_on", build_qs("call_on"), "h_qs", enforce="QS_call_on", timeout=300, backend=["sat", "kissat", "cvc5"], must_have=[r"QS_call_on.postcondition"], replay=REPLAY_QS,
+         note="QuadraticSolver::operator()() (on-surface): the single reported root is > 0 or no_intersection"),
+    Unit("c12_qs_along_surface", build_qs("along"), "h_qs", enforce="QS_solve_along_surface", timeout=600, backend=["sat", "kissat", "cvc5"], must_have=[r"QS_solve_along_surface.postcondition"], replay=REPLAY_QS,
+         note="QuadraticSolver::solve_along_surface (degenerate a ~ 0): the reported root is > 0 or no_intersection"),
+    Unit("c12_qs_solve_general", build_qs_general, "h_qsg", enforce="QS_solve_general", replace=["QS_call_c", "QS_call_on", "QS_solve_along_surface"], timeout=900, backend=["sat", "kissat", "cvc5", "z3"],
+         must_have=[r"QS_solve_general.postcondition", r"QS_call_c.precondition", r"QS_solve_along_surface.precondition", r"celer_expect"], replay=REPLAY_QS,
+         assumptions=["coefficient magnitudes zero or within [1e-100, 1e100]"],
+         note="QuadraticSolver::solve_general: dispatch to the three solvers with their preconditions satisfied (finite 1/a and b/2a when |a| >= min_a; constructor EXPECT holds); every reported distance > 0 or no_intersection in all four branches"),
+]
